@@ -19,7 +19,7 @@ DangerousMods == {"os", "posix", "nt", "subprocess", "sys", "socket", "shutil", 
                   "os.path", "urllib.request", "urllib.parse", "dill._dill", "torch.hub.x", "code.x"}
 BenignStdMods == {"collections", "datetime", "fractions", "decimal", "copyreg", "_codecs", "array",
                   "uuid", "pathlib", "functools", "string", "types", "enum", "re", "operator", "time", "itertools",
-                  "marshal", "_io", "importlib", "gzip"}
+                  "marshal", "_io", "io", "importlib", "gzip"}
 NonStdMods    == {"verif_sink", "verif_nat", "numpy", "M1", "M2", "sklearn.tree", "not_a_real_module",
                   "copy_reg", "pkg.sub", "torch", "torch.storage", "torch.serialization", "torch.jit", "operator.impl",
                   "numpy.testing._private.utils", "numpy.testing._private.utils.x", "numpy.core.multiarray",
@@ -32,6 +32,10 @@ ModCat(m) == IF m \in BuiltinMods THEN "builtins"
              ELSE "unknown"
 
 Evalish == {"eval", "exec", "compile", "open"}
+\* the standard library re-exports one of them: io.open (and _io.open) IS builtins.open ("io.open: an alias for the
+\* builtin open() function"), so calling it is calling `open`
+IsEvalish(m, n) == \/ ModCat(m) = "builtins" /\ n \in Evalish
+                   \/ m \in {"io", "_io"} /\ n = "open"
 
 \* floor contributed by one event of the reference machine (callee is a canonical term)
 FloorOf(e) ==
@@ -40,8 +44,8 @@ FloorOf(e) ==
         ELSE IF ModCat(e.m) = "nonstd" THEN LIKELY_UNSAFE ELSE LIKELY_SAFE)
   ELSE IF e.e = "call" THEN
        (IF e.f.k = "g"
-        THEN (IF ModCat(e.f.m) = "builtins"
-              THEN (IF e.f.n \in Evalish THEN OVERTLY_MALICIOUS ELSE LIKELY_UNSAFE)
+        THEN (IF IsEvalish(e.f.m, e.f.n) THEN OVERTLY_MALICIOUS
+              ELSE IF ModCat(e.f.m) = "builtins" THEN LIKELY_UNSAFE
               ELSE IF ModCat(e.f.m) = "nonstd" THEN LIKELY_UNSAFE ELSE LIKELY_SAFE)
         ELSE IF e.f.k \in {"obj", "pers"} THEN LIKELY_UNSAFE       \* the callee is itself computed
         ELSE LIKELY_SAFE)
